@@ -125,7 +125,17 @@ Section Chain.
     client_chain (S (length mws)) mws (core_kont core) 0.
 
   (** kmipserver/router.go, BatchExecutor.HandleRequest: the same closure over
-      [exec.middlewares] with [exec.handleRequest(ctx, rm)] innermost. *)
+      [exec.middlewares] with [exec.handleRequest(ctx, rm)] innermost:
+<<
+      chain = func(i int) Next {
+          return func(ctx context.Context, rm *kmip.RequestMessage) ( *kmip.ResponseMessage, error) {
+              if i < len(exec.middlewares) {
+                  return exec.middlewares[i](chain(i+1), ctx, rm)
+              }
+              return exec.handleRequest(ctx, rm)
+          }
+      }
+>>  *)
   Fixpoint server_chain (fuel : nat) (mws : list stage) (core : kont) (i : nat) : kont :=
     fun c rm s =>
       match fuel with
@@ -140,7 +150,17 @@ Section Chain.
       end.
 
   (** kmipserver/router.go, BatchExecutor.executeItemWithMiddleware: the same closure
-      over [exec.biMiddlewares] with [exec.executeItem(ctx, bi)] innermost. *)
+      over [exec.biMiddlewares] with [exec.executeItem(ctx, bi)] innermost:
+<<
+      chain = func(m int) BatchItemNext {
+          return func(ctx context.Context, bi *kmip.RequestBatchItem) ( *kmip.ResponseBatchItem, error) {
+              if m < len(exec.biMiddlewares) {
+                  return exec.biMiddlewares[m](chain(m+1), ctx, bi)
+              }
+              return exec.executeItem(ctx, bi)
+          }
+      }
+>>  *)
   Fixpoint item_chain (fuel : nat) (mws : list stage) (core : kont) (m : nat) : kont :=
     fun c bi s =>
       match fuel with
@@ -376,7 +396,7 @@ Section Wrappers.
       respBi, err := chain(0)(ctx, bi)
       if respBi == nil {
           respBi = &kmip.ResponseBatchItem{Operation: bi.Operation, UniqueBatchItemID: bi.UniqueBatchItemID}
-          if err == nil { err = errNoBatchItemResponse }
+          if err == nil { err = errors.New("No response for batch item") }
       }
       if err != nil { handleBatchItemError(ctx, respBi, err) }
       return *respBi
